@@ -150,6 +150,11 @@ func (g *evGen) session(supi, nf string) *genSess {
 		usages = append(usages, g.usage(nil, g.r.pick(1, 2), true))
 	}
 	fmt.Fprintf(g.w, "chf create %s\n", fmtReq(supi, nf, 100+len(g.sess), 0, 1, 0, nil, usages))
+	if strings.Contains(nf, "/") {
+		// a name with a path separator opens no session (the reference could not be named): refused, no number is used up
+		g.done++
+		return nil
+	}
 	s := &genSess{supi: supi, nf: nf, sid: supi + nf + "-" + strconv.Itoa(g.counter), lastGrant: map[int]int{}, live: true}
 	g.counter++
 	g.done++
@@ -308,7 +313,9 @@ func genChfEvents(o genOpts, w *bufio.Writer) {
 
 // consumer names with characters that are escaped in a URI; the generator's escapePath encodes them once, as a correct client does
 var escapeNames = []string{"smf%41", "smfA", "smf%2541", "smf%", "%", "%%", "a%2Fb", "a%2fb", "a+b", "a b", "a%20b", "smf%25", "%41", "A",
-	"smf?x", "smf#1", "smf;v=1", "smf%zz", "smf%4", "é", "smf%C3%A9", "a%00", "100%", "%2E%2E", "a=b&c"}
+	"smf?x", "smf#1", "smf;v=1", "smf%zz", "smf%4", "é", "smf%C3%A9", "a%00", "100%", "%2E%2E", "a=b&c",
+	// a path separator in the name: a reference built from it could not be the last element of a resource URI
+	"a/b", "/", "smf/1", "a//b", "smf/"}
 
 // every way of writing one octet of s as %XX (upper / lower case hex), at most n variants
 func percentVariants(s string, r *rng, n int) []string {
